@@ -3,6 +3,7 @@ import Amgcl.Model.RelaxJacobi
 import Amgcl.Model.RelaxGS
 import Amgcl.Model.RelaxCheb
 import Amgcl.Model.RelaxIlu
+import Amgcl.Model.RelaxIluk
 import Amgcl.Model.RelaxCheck
 /-!
 Handlers for the relaxation models (C06).  Every sweep op takes `… A f x tmp` and answers `x' tmp'`
@@ -15,8 +16,11 @@ Handlers for the relaxation models (C06).  Every sweep op takes `… A f x tmp` 
     relax_cheb_twice deg hi lo scale A f x g           (two `apply_pre` on the same object: members p,r persist)
     relax_cheb_cd hi lo scale A                         (the ellipse `c d`)
     relax_ilu0_pre|post ω A f x tmp          relax_ilu0_apply A f           relax_ilu0_factors A
+    relax_iluk_pre|post k ω A f x tmp        relax_iluk_apply k A f         relax_iluk_factors k A
+    relax_ilup_factors k A                    (ILU(0) of `A` padded with zeros to the pattern of `A^(k+1)`)
     relax_ilu_solve L U D b                   (serial_solve on given factors)
-    relax_lu_check kind k A L U D            (V-grade: `LUOnPattern` etc. on the implementation's factors)
+    relax_lu_check kind k A L U D            (`LUOnPattern` etc. on the implementation's factors; 4th flag: the model of
+                                              the algorithm as written predicts exactly these factors)
     relax_spai1_check A M                     (V-grade: `LeastSquaresRows` on the implementation's `M`)
 -/
 namespace Amgcl.Driver.Relax
@@ -50,6 +54,21 @@ def outcome {S : Type} (o : SetupOutcome S) (k : S → String) : String :=
 
 def showFactors (F : IluFactors Rat) : String :=
   showCRS F.L ++ " " ++ showCRS F.U ++ " " ++ showVec F.D
+
+/-- factors as they can be observed through `apply`: explicit zeros dropped; `singular` when a stored pivot is `0` -/
+def showObservable (F : IluFactors Rat) : String :=
+  if F.D.any (· == 0) then "singular" else showFactors F.dropZeros
+
+/-- does the model of the algorithm as written produce exactly the given (observable) factors? -/
+def asIs (kind : String) (k : Nat) (A : CRS Rat) (F : IluFactors Rat) : String :=
+  let cmp (o : SetupOutcome (IluFactors Rat)) : String :=
+    match o with
+    | .ok G => showBool (showFactors G.dropZeros == showFactors F)
+    | _ => "0"
+  if kind = "ilu0" then cmp (ilu0Factor A)
+  else if kind = "iluk" then cmp (ilukFactor k A)
+  else if kind = "ilup" then cmp (ilupFactor k A)
+  else "-"
 
 def handle (op : String) (args : List String) : Option String :=
   match op with
@@ -132,6 +151,24 @@ def handle (op : String) (args : List String) : Option String :=
   | "relax_ilu0_factors" =>
     withArgs pCRS args fun A =>
       if square A && A.sortedb then outcome (ilu0Factor A) showFactors else badInput
+  | "relax_iluk_pre" | "relax_iluk_post" =>
+    withArgs (do let k ← pNat; let w ← pRat; let a ← pSweepArgs; pure (k, w, a)) args fun (k, w, A, f, x, t) =>
+      if sweepOk A f x t && A.sortedb && hasDiagb A then
+        let sm := iluk k w
+        outcome (sm.setup A) fun s => show2 (if op == "relax_iluk_pre" then sm.applyPre s A f x t else sm.applyPost s A f x t)
+      else badInput
+  | "relax_iluk_apply" =>
+    withArgs (do let k ← pNat; let A ← pCRS; let f ← pVec; pure (k, A, f)) args fun (k, A, f) =>
+      if square A && f.size == A.nrows && A.sortedb && hasDiagb A then
+        let sm := iluk k (1 : Rat)
+        outcome (sm.setup A) fun s => showVec (sm.apply s A f)
+      else badInput
+  | "relax_iluk_factors" =>
+    withArgs (do let k ← pNat; let A ← pCRS; pure (k, A)) args fun (k, A) =>
+      if square A && A.sortedb && hasDiagb A then outcome (ilukFactor k A) showObservable else badInput
+  | "relax_ilup_factors" =>
+    withArgs (do let k ← pNat; let A ← pCRS; pure (k, A)) args fun (k, A) =>
+      if square A && A.sortedb && hasDiagb A then outcome (ilupFactor k A) showObservable else badInput
   | "relax_ilu_solve" =>
     withArgs (do let L ← pCRS; let U ← pCRS; let D ← pVec; let b ← pVec; pure (L, U, D, b)) args fun (L, U, D, b) =>
       if square L && square U && L.nrows == U.nrows && D.size == L.nrows && b.size == L.nrows
@@ -146,7 +183,8 @@ def handle (op : String) (args : List String) : Option String :=
         match admPattern kind k A with
         | some adm =>
           let F : IluFactors Rat := { L := L, U := U, D := D }
-          joinSp [showBool (luOnPatternb adm.1 A F), showBool (factorsInPatternb adm.2 F), showBool (luExactb A F)]
+          joinSp [showBool (luOnPatternb adm.1 A F), showBool (factorsInPatternb adm.2 F), showBool (luExactb A F),
+                  asIs kind k A F]
         | none => badInput
       else badInput
   | "relax_spai1_check" =>
